@@ -686,9 +686,8 @@ def r6_value_list_predicate(chk, prog):
         return any(x.get('k') == 'BinaryOperator' and x.get('op') in ('!=', '==') and
                    any(field_name(k) == 'mpLastArg' for k in children(x)) for x in walk(expr))
 
-    rets = [x for x in vo.walk() if x.get('k') == 'ReturnStmt']
-    chk.require(len(rets) == 1 and children(rets[0]), 'valueListOpen: single return expression expected')
-    mine = queries(children(rets[0])[0])
+    chk.require(vo.body is not None, 'valueListOpen: body not extracted')
+    mine = queries(vo.body)
     cfg = ev.cfg
     theirs = None
     nulls = False
@@ -702,7 +701,7 @@ def r6_value_list_predicate(chk, prog):
             theirs = sorted(set(theirs or []) | set(queries(cond)))
             nulls = nulls or null_tested(cond)
     if theirs is not None:
-        chk.check(nulls and null_tested(children(rets[0])[0]), 'R6', vo.name,
+        chk.check(nulls and null_tested(vo.body), 'R6', vo.name,
                   'both predicates test mpLastArg against null', vo.loc())
     chk.require(theirs is not None, 'evalSingleArgument: branch that assigns a further value to mpLastArg not found')
     chk.check(mine == theirs, 'R6', vo.name,
